@@ -3,8 +3,10 @@ package c05
 import (
 	"context"
 	"encoding/xml"
+	"errors"
 	"fmt"
 	"math/rand"
+	"runtime"
 	"strings"
 
 	"mellium.im/xmlstream"
@@ -32,6 +34,9 @@ type opRec struct {
 	stanza     bool  // top-level is a stanza: completions apply
 	startGiven bool
 }
+
+// errStaleWrite: a write through a closed token writer was accepted.
+var errStaleWrite = errors.New("EncodeToken on a closed TokenWriter returned nil")
 
 // ---- values for the Encode family
 
@@ -377,6 +382,10 @@ func (g *gen) next(actor, n int) (*opRec, func(ctx context.Context) error) {
 			rec.stanza = true
 		}
 		rec.want, rec.Size = e.node(""), sizeClass(e)
+		again := r.Intn(2) == 0
+		if again {
+			rec.Form = "tokens+second-close"
+		}
 		return rec, func(ctx context.Context) error {
 			w := s.TokenWriter()
 			var err error
@@ -387,6 +396,20 @@ func (g *gen) next(actor, n int) (*opRec, func(ctx context.Context) error) {
 			}
 			if cerr := w.Close(); err == nil {
 				err = cerr
+			}
+			if again && err == nil {
+				// the common "defer w.Close()" plus explicit Close idiom: a closed
+				// writer is dead, closing it again or writing through it must not
+				// touch the stream (which by now belongs to other callers)
+				for i, k := 0, 1+len(e.Kids)%3; i < k; i++ {
+					runtime.Gosched()
+				}
+				if cerr := w.Close(); cerr != nil {
+					return fmt.Errorf("second Close: %w", cerr)
+				}
+				if werr := w.EncodeToken(xml.CharData("stale write " + marker)); werr == nil {
+					return errStaleWrite
+				}
 			}
 			return err
 		}
